@@ -1810,4 +1810,61 @@ theorem fc11SendP_laws : Fc11Laws fc11SendP := by
       rw [hI.1, hdl, hI.2.1, hI.2.2.2.1, hY1, hY2]
       exact hd
 
+/-! ### a delivery at send quota 0 writes nothing -/
+
+theorem fc11_core_defers (s : Server) (i : Nat) (sub : Sub) (f : Bool) (pk : Msg)
+    (hq : (getObj s i).sendQuota = 0) (hm : 0 < (getObj s i).maxSend) (hqos : shapeQos s.caps sub pk.qos > 0) :
+    ∀ conn w, Out.wrote conn w ∉ (publishToClientCore s i sub f pk).2 := by
+  intro conn w
+  unfold publishToClientCore
+  extract_lets c out
+  have hoq : out.qos > 0 := hqos
+  split
+  rename_i c1 out1 heq
+  have hc1 : c1.sendQuota = c.sendQuota ∧ c1.maxSend = c.maxSend ∧ out1.qos = out.qos := by
+    split at heq
+    · split at heq
+      rename_i c' a ex h2
+      have h4 : c'.sendQuota = c.sendQuota ∧ c'.maxSend = c.maxSend := by
+        have : (aliasOutSet c pk.topic).1 = c' := by rw [h2]
+        rw [← this]
+        unfold aliasOutSet
+        split
+        · exact ⟨rfl, rfl⟩
+        · split
+          · exact ⟨rfl, rfl⟩
+          · split <;> exact ⟨rfl, rfl⟩
+      split at heq <;> (cases heq; exact ⟨h4.1, h4.2, rfl⟩)
+    · cases heq; exact ⟨rfl, rfl, rfl⟩
+  clear heq
+  extract_lets s1
+  split
+  · split
+    · intro h; cases h
+    · split
+      · intro h
+        rcases List.mem_singleton.mp h with h
+        cases h
+      · extract_lets c2 out2 sentQuota
+        split
+        rename_i c3 isNew hfl
+        extract_lets c4 s2 src s3
+        have hc3 : c3.maxSend = c1.maxSend := by
+          have := (fc11_flSet_fields c2 out2).2.2.2
+          rw [hfl] at this
+          exact this
+        have hc4 : c4.maxSend = c1.maxSend := by
+          show (if isNew = true then decSend c3 else c3).maxSend = _
+          split
+          · rw [fc11_decSend_maxSend]; exact hc3
+          · exact hc3
+        have hdef : (sentQuota == 0 && decide (c4.maxSend > 0)) = true := by
+          have h1 : sentQuota = 0 := hc1.1.trans hq
+          have h2 : c4.maxSend > 0 := by rw [hc4, hc1.2.1]; exact hm
+          simp [h1, h2]
+        rw [if_pos hdef]
+        intro h; cases h
+  · rename_i hn
+    exact absurd (by rw [hc1.2.2]; exact hoq) hn
+
 end Mochi.Broker
